@@ -234,6 +234,12 @@ def compare(simu, key, where):
         err = np.abs(Gd - R).max() if R.size else 0.0
         if err > 1e-13 * sc:
             v.append(viol("assembly_mismatch", f"{where}: {name} differs from the dense scatter-add by {err:.3e} (scale {sc:.2e})", slot=name, **key))
+    # the matrices handed out by Assembly() belong to the caller too: an in-place structural operation on them (dropping stored zeros, the
+    # natural thing to do with a consistent mass matrix) must not reach the next assembly
+    for G in got:
+        if hasattr(G, "eliminate_zeros") and G.nnz:
+            G.data[::2] = 0.0
+            G.eliminate_zeros()
     return v, fps
 
 
